@@ -2,6 +2,7 @@
 # Build the Coq development (full .vo), extract the engine, build the driver.
 # Offline; everything from files on disk.
 set -euo pipefail
+ulimit -s unlimited 2>/dev/null || true
 cd "$(dirname "$0")"
 export PYTHONPATH=/repo/src PYTHONHASHSEED=0
 mkdir -p build evidence replays coq/Gen
